@@ -138,9 +138,9 @@ ScanStep(w, p, n, G) ==
    ELSE LET st == Star(p, n, G) \ {p}
             add == FoldSet(LAMBDA k, acc : acc + w[k], 0, st)
         IN [k \in DOMAIN w |-> IF k = p THEN w[p] + add ELSE IF k \in st THEN 0 ELSE w[k]]
-RECURSIVE ScanFrom(_, _, _, _)
-ScanFrom(w, i, n, G) == IF i >= Prod3(n) THEN w ELSE ScanFrom(ScanStep(w, ScanPoint(i, n), n, G), i + 1, n, G)
-ReducedWeights(n, G) == ScanFrom([p \in GridPts(n) |-> 1], 0, n, G)
+(* the whole loop: fold of the loop body over the scan positions 0 .. prod(n)-1 (FoldLeft is iterative in TLC) *)
+ReducedWeights(n, G) ==
+   FoldLeft(LAMBDA w, i : ScanStep(w, ScanPoint(i, n), n, G), [p \in GridPts(n) |-> 1], [k \in 1..Prod3(n) |-> k - 1])
 FullWeights(n) == [p \in GridPts(n) |-> 1]
 (* the returned K_list: surviving points in flattening order, each with its weight (factor * prod(div)) *)
 KListOf(w, n) ==
